@@ -21,7 +21,7 @@ ID = "C14"
 RULE = ("all states of a 2-object universe (p/1, q/2, z/0; f/1, g/0 over 3 values; 3456 states) each built along a "
         "route chosen by its index (problem parser, trajectory parser, direct construction in permuted insertion "
         "order, copy, successor of a neighbouring state, facts additionally stored under their arguments' own subtype, a "
-        "neighbouring state read once and then edited in place through its public containers), compared pairwise in blocks (all ordered pairs of each "
+        "neighbouring state read once and then edited in place through its public containers, facts carrying the is_masked flag), compared pairwise in blocks (all ordered pairs of each "
         "block), plus random larger states over a 3-object universe with a binary fluent, values of 1-15 significant digits and magnitudes 1e-14..1e21 (pairs also one relative step of 1e-3..1e-13 apart), -0.0 produced by an effect "
         "and repeated arguments.  Non-trivial = a pair that differs in exactly one fact or one value, or an equal "
         "pair built by two different routes.  Distinct by (state pair, routes).")
@@ -41,7 +41,8 @@ DOM = {"name": "d", "typed": True, "types": [["t", "object"], ["s", "t"]], "cons
            {"name": "decg", "params": [], "pre": ["and"], "eff": ["and", ["decrease", ["g"], "1"]]},
            {"name": "zerog", "params": [], "pre": ["and"], "eff": ["and", ["assign", ["g"], ["*", "-1", "0"]]]},
        ]}
-ROUTES = ["problem", "trajectory", "direct", "direct-permuted", "copy", "successor", "direct-variants", "edited-in-place"]
+ROUTES = ["problem", "trajectory", "direct", "direct-permuted", "copy", "successor", "direct-variants", "edited-in-place",
+          "direct-masked"]
 VALS = [Fraction(0), Fraction(1), Fraction(-3, 2)]
 
 _CACHE = {}
@@ -94,6 +95,17 @@ def build(route, st, objects, salt=0):
         return State(preds, {k: s.state_fluents[k] for k in reversed(list(s.state_fluents))}, is_init=False)
     if route == "copy":
         return build_state(domain, world, st).copy()
+    if route == "direct-masked":
+        # every other fact carries the observability mask (a constructor flag of ground facts): a masked fact is
+        # still a fact of the state - for equality, for copies and for the text
+        s = build_state(domain, world, st)
+        n = 0
+        for key in sorted(s.state_predicates):
+            for g in sorted(s.state_predicates[key], key=str):
+                n += 1
+                if n % 2 == salt % 2:
+                    g.is_masked = True
+        return s
     if route == "direct-variants":
         # facts over objects of the subtype also stored under the object's own type (as add effects leave them)
         return build_state(domain, world, st, variants=True)
